@@ -247,7 +247,7 @@ def step (st0 : St) (ts : List String) : St × String :=
       let d0 := st.disk.set 0 none
       let viaSession (isText : Bool) (mode : OpenMode) : Option Disk :=
         let r := openH d0 0 isText mode
-        r.1.map fun h => (fwrite r.2 h bs).2.1
+        r.1.map fun h => (writeAll r.2 h [bs]).1
       let d1 : Option Disk := match api with
         | "put" => some (put d0 0 bs).2
         | "tput" => some (tput d0 0 .write bs).2
